@@ -406,9 +406,24 @@ func runC08(run *Run, replay string) {
 						continue
 					}
 					if strings.HasPrefix(c.Label, "self.") || strings.HasPrefix(c.Label, "count.") || strings.HasPrefix(c.Label, "each.") {
+						// ground truth from the syntax tree: one of the declarations carrying that name is written inside the
+						// top-level block the cursor is in
 						visible := false
+						var enclosing *hcl.Range
+						if f2 := pd2.Ctx.Files["main.tf"]; f2 != nil {
+							if b2, ok := f2.Body.(*hclsyntax.Body); ok {
+								for _, blk := range b2.Blocks {
+									if r := blk.Range(); r.Start.Byte <= pos.Byte && pos.Byte <= r.End.Byte {
+										enclosing = &r
+									}
+								}
+							}
+						}
 						for _, t := range ts {
-							if t.TargetableFromRangePtr == nil || (t.TargetableFromRangePtr.Filename == "main.tf" && t.TargetableFromRangePtr.Start.Byte <= pos.Byte && pos.Byte <= t.TargetableFromRangePtr.End.Byte) {
+							if enclosing == nil {
+								break
+							}
+							if t.RangePtr != nil && t.RangePtr.Filename == "main.tf" && enclosing.Start.Byte <= t.RangePtr.Start.Byte && t.RangePtr.End.Byte <= enclosing.End.Byte {
 								visible = true
 							}
 						}
